@@ -150,6 +150,25 @@ Proof.
   split; [discriminate|]. intros [A|[A|[A|A]]]; lia.
 Qed.
 
+Lemma kind_eqb_eq a b : kind_eqb a b = true <-> a = b.
+Proof. destruct a, b; cbn; split; intros H; try reflexivity; discriminate. Qed.
+
+Lemma is_chunk_iff_header_chunk_lemma bs :
+  (is_record_of_type_chunk bs = Some true <-> from_record bs = Some KChunk) /\
+  (is_record_of_type_chunk bs = None <-> from_record bs = None) /\
+  (forall b, is_record_of_type_chunk bs = Some b -> exists k, from_record bs = Some k /\ (b = true <-> k = KChunk)).
+Proof.
+  unfold is_record_of_type_chunk. destruct (from_record bs) as [k|].
+  - split; [|split].
+    + split; intros H; injection H as H; [apply kind_eqb_eq in H; now subst|subst; reflexivity].
+    + split; discriminate.
+    + intros b H. injection H as <-. exists k. split; [reflexivity|apply kind_eqb_eq].
+  - split; [|split].
+    + split; discriminate.
+    + tauto.
+    + intros b H. discriminate.
+Qed.
+
 (* ---------------------------------------------------------------- records *)
 Lemma skipn_header k t : skipn (N.to_nat SIZE) (header k ++ t) = t.
 Proof. rewrite header_bytes. reflexivity. Qed.
